@@ -32,6 +32,7 @@ type C08Op struct {
 	Keys    []int  `json:"keys,omitempty"`   // replenish: account / pool indices
 	Alw     int    `json:"alw,omitempty"`    // renew / refresh: allowance code
 	Col     int    `json:"col,omitempty"`    // renew / refresh: collateral code
+	Old     bool   `json:"old,omitempty"`    // address contract C itself even if it has been renewed (do not follow the renewal)
 	Race    *C08Op `json:"race,omitempty"`   // race: the second RPC, run concurrently on the same contract
 }
 
@@ -58,8 +59,9 @@ type replayKey struct {
 
 type c08 struct {
 	*session
-	commits  int
-	rejected int // corrupted / replayed requests that were rejected
+	commits      int
+	rejected     int // corrupted / replayed requests that were rejected
+	refusedStale int // revising RPCs on renewed / expired contracts that were refused
 	// material for replay corruptions: last committed exchange per kind+contract
 	lastReq map[replayKey]proto4.Object
 	lastSig map[replayKey]types.Signature
@@ -181,9 +183,16 @@ func (x *c08) verifyCommit(what string, m *mcontract, logFrom int, e expectation
 
 // consensusAccepts checks that core accepts the latest revision as a revision
 // of the on-chain element.
-func (x *c08) consensusAccepts(m *mcontract) error {
+//
+// justCommitted: the revision was committed by the RPC that just ended, so it
+// must be acceptable at the CURRENT tip (a revision persisted after the proof
+// window opened or after the contract was renewed fails here). Otherwise the
+// check is skipped once the tip has passed the proof height or the contract
+// has been renewed, because an older, once valid revision legitimately cannot
+// be confirmed any more.
+func (x *c08) consensusAccepts(m *mcontract, justCommitted bool) error {
 	cs := x.tipState()
-	if m.Renewed || cs.Index.Height >= m.Rev.ProofHeight || len(m.Chain) < 2 {
+	if len(m.Chain) < 2 || (!justCommitted && (m.Renewed || cs.Index.Height >= m.Rev.ProofHeight)) {
 		return nil
 	}
 	basis, fce, err := x.H.Contractor.V2FileContractElement(m.ID)
@@ -215,7 +224,7 @@ func (x *c08) after(what string, before *rhpx.Snapshot, m *mcontract) error {
 		return fmt.Errorf("%s: %w", what, err)
 	}
 	if m != nil {
-		return x.consensusAccepts(m)
+		return x.consensusAccepts(m, true)
 	}
 	return nil
 }
@@ -348,6 +357,9 @@ func (x *c08) tamperFor(kind, corrupt string, m *mcontract) (t *rhpx.Tamper, ok 
 			p.FreeSectorPrice = p.FreeSectorPrice.Div64(2)
 			p.ContractPrice = p.ContractPrice.Div64(2)
 		}}, true
+	case "bad-input-sig", "double-spend":
+		// every check of the handler passes, the pool rejects the finished set
+		return sigTamper(corrupt), true
 	case "other-contract":
 		other := types.FileContractID{0xAB, 0xCD}
 		for _, c := range x.C {
@@ -390,9 +402,9 @@ func corruptionsFor(op string) []string {
 	case "repl-acct", "repl-pool":
 		return cat(chal, sig, []string{"req-replay", "chal-replay", "other-contract", "target-zero", "no-accounts", "target-overflow"})
 	case "renew":
-		return cat(chal, prices, []string{"sig-random", "sig-otherkey", "sig-amount", "other-contract", "proof-height-low", "allowance-zero", "collateral-over-max"})
+		return cat(chal, prices, []string{"sig-random", "sig-otherkey", "sig-amount", "other-contract", "proof-height-low", "allowance-zero", "collateral-over-max", "bad-input-sig", "double-spend"})
 	case "refresh-full", "refresh-partial":
-		return cat(chal, prices, []string{"sig-random", "sig-otherkey", "sig-amount", "other-contract", "allowance-zero", "collateral-over-max"})
+		return cat(chal, prices, []string{"sig-random", "sig-otherkey", "sig-amount", "other-contract", "allowance-zero", "collateral-over-max", "bad-input-sig", "double-spend"})
 	}
 	return nil
 }
@@ -413,6 +425,22 @@ func (x *c08) live(i int) *mcontract {
 		m = next
 	}
 	return m
+}
+
+// target returns the contract an op addresses: the live successor, or - with
+// Old - exactly contract C even if it has been renewed.
+func (x *c08) target(op C08Op) *mcontract {
+	if op.Old {
+		return x.C[mod(op.C, len(x.C))]
+	}
+	return x.live(op.C)
+}
+
+// nonRevisable reports (by the harness' own bookkeeping) that the host must
+// refuse every revising RPC on m: it was renewed / refreshed, or the tip has
+// reached its proof height.
+func (x *c08) nonRevisable(m *mcontract) bool {
+	return m.Renewed || x.H.CM.Tip().Height >= m.Rev.ProofHeight
 }
 
 // exchange is one prepared RPC: how to run it and what the harness expects if
@@ -631,8 +659,9 @@ func (x *c08) prepare(op C08Op, m *mcontract) (exchange, error) {
 
 // rpc runs one revising RPC (fund, replenish, append, free, roots), honest or
 // corrupted, and applies the oracle.
-func (x *c08) rpc(op C08Op) error {
-	m := x.live(op.C)
+func (x *c08) rpc(op C08Op) error { return x.rpcOn(op, x.target(op)) }
+
+func (x *c08) rpcOn(op C08Op, m *mcontract) error {
 	e, err := x.prepare(op, m)
 	if err != nil {
 		return err
@@ -665,6 +694,22 @@ func (x *c08) rpc(op C08Op) error {
 	}
 	exp, derr := e.expect()
 	x.cs.Class("rpc:" + e.kind)
+	if x.nonRevisable(m) {
+		// renewed, refreshed or past its proof height: nothing may be revised
+		why := "past-proof-height"
+		if m.Renewed {
+			why = "renewed"
+		}
+		x.cs.Class("non-revisable:" + why + ":" + e.kind)
+		if res.Done {
+			return fmt.Errorf("%s: the host completed a revising RPC on a contract that is no longer revisable (renewed=%v, tip height %d, proof height %d)", what, m.Renewed, x.H.CM.Tip().Height, m.Rev.ProofHeight)
+		}
+		if err := quietLog(x.H.Log.Since(logFrom)); err != nil {
+			return fmt.Errorf("%s on a non-revisable contract (%v): %w", what, res, err)
+		}
+		x.refusedStale++
+		return x.after(what+" on a non-revisable contract -> "+res.String(), &before, nil)
+	}
 	if corrupted {
 		x.cs.Class("corrupt:" + op.Corrupt)
 		if res.Done {
@@ -749,8 +794,9 @@ func (x *c08) latest(op C08Op) error {
 	return nil
 }
 
-func (x *c08) renew(op C08Op) error {
-	m := x.live(op.C)
+func (x *c08) renew(op C08Op) error { return x.renewOn(op, x.target(op)) }
+
+func (x *c08) renewOn(op C08Op, m *mcontract) error {
 	args := rhpx.RenewArgs{Kind: op.Op, Allowance: amount(op.Alw).Add(types.Siacoins(1)), Collateral: amount(op.Col).Add(types.Siacoins(2)), ProofHeight: m.Rev.ProofHeight + 10}
 	corrupted := false
 	var tamper *rhpx.Tamper
@@ -782,6 +828,21 @@ func (x *c08) renew(op C08Op) error {
 	}
 	x.cs.Class("rpc:" + op.Op)
 	calls := x.H.Log.Since(logFrom)
+	if x.nonRevisable(m) {
+		why := "past-proof-height"
+		if m.Renewed {
+			why = "renewed"
+		}
+		x.cs.Class("non-revisable:" + why + ":" + op.Op)
+		if r.Done {
+			return fmt.Errorf("%s: the host renewed a contract that is no longer revisable (renewed=%v, tip height %d, proof height %d)", what, m.Renewed, x.H.CM.Tip().Height, m.Rev.ProofHeight)
+		}
+		if err := quietLog(calls); err != nil {
+			return fmt.Errorf("%s on a non-revisable contract (%v): %w", what, r.Result, err)
+		}
+		x.refusedStale++
+		return x.after(what+" on a non-revisable contract -> "+r.Result.String(), &before, nil)
+	}
 	if corrupted || !r.Done {
 		if corrupted {
 			x.cs.Class("corrupt:" + op.Corrupt)
@@ -813,7 +874,35 @@ func (x *c08) renew(op C08Op) error {
 		return fmt.Errorf("%s: the confirmed contract differs from the one handed to the contractor", what)
 	}
 	x.cs.Class("renewal-committed")
-	return x.after(what, nil, nil)
+	if err := x.after(what, nil, nil); err != nil {
+		return err
+	}
+	return x.staleBattery(m)
+}
+
+// staleBattery issues every revising RPC kind, honestly built on the last
+// revision, against a contract that is no longer revisable (renewed or past
+// its proof height): each must be refused and change nothing.
+func (x *c08) staleBattery(m *mcontract) error {
+	n := len(m.Roots)
+	for _, op := range []C08Op{
+		{Op: "roots", Off: 0, Len: n},
+		{Op: "append", Roots: []int{5}},
+		{Op: "free", Idx: []int{0}},
+		{Op: "fund", Dep: []int{0, 2}},
+		{Op: "repl-acct", Keys: []int{0}, Target: 4},
+		{Op: "repl-pool", Keys: []int{0}, Target: 4},
+	} {
+		if err := x.rpcOn(op, m); err != nil {
+			return err
+		}
+	}
+	for _, kind := range []string{"renew", "refresh-full", "refresh-partial"} {
+		if err := x.renewOn(C08Op{Op: kind, Alw: 4, Col: 4}, m); err != nil {
+			return err
+		}
+	}
+	return nil
 }
 
 // verifyRenewal checks the calls recorded during a completed renew/refresh:
@@ -908,6 +997,10 @@ func (x *c08) verifyRenewal(what string, m *mcontract, kind string, args rhpx.Re
 // success; which one is up to the scheduler.
 func (x *c08) race(op C08Op) error {
 	m := x.live(op.C)
+	if x.nonRevisable(m) {
+		x.cs.Class("race-skipped")
+		return nil
+	}
 	var parts []exchange
 	var exps []expectation
 	for p := op.Race; p != nil && len(parts) < 3; p = p.Race {
@@ -986,6 +1079,10 @@ func (x *c08) nest(op C08Op) error {
 		return nil
 	}
 	m := x.live(op.C)
+	if x.nonRevisable(m) {
+		x.cs.Class("nest-skipped")
+		return nil
+	}
 	prices := x.Prices
 	type part struct {
 		kind, what string
@@ -1111,7 +1208,10 @@ func (x *c08) nest(op C08Op) error {
 		return fmt.Errorf("%s: the confirmed contract differs from the one handed to the contractor", what)
 	}
 	x.cs.Class("renewal-committed")
-	return x.after(what, nil, nil)
+	if err := x.after(what, nil, nil); err != nil {
+		return err
+	}
+	return x.staleBattery(m)
 }
 
 func twoRoundC08(kind string) bool {
@@ -1135,7 +1235,33 @@ func (x *c08) step(op C08Op) error {
 			}
 			x.Prices = p
 		}
-		return x.after("mine", nil, x.live(op.C))
+		if err := x.after("mine", nil, nil); err != nil {
+			return err
+		}
+		return x.consensusAccepts(x.live(op.C), false)
+	case "minepast":
+		// mine until the proof window of the live contract has opened (Len = 1:
+		// until it has expired); from then on nothing on it may be revised
+		m := x.live(op.C)
+		goal := m.Rev.ProofHeight
+		if op.Len == 1 {
+			goal = m.Rev.ExpirationHeight + 1
+		}
+		if tip := x.H.CM.Tip().Height; tip < goal {
+			if err := x.H.Mine(types.VoidAddress, int(goal-tip)); err != nil {
+				return err
+			}
+		}
+		p, err := x.H.FetchPrices()
+		if err != nil {
+			return fmt.Errorf("%w: %v", errInfra, err)
+		}
+		x.Prices = p
+		x.cs.Class("mined-past-proof-height")
+		if err := x.after("mine past the proof height", nil, nil); err != nil {
+			return err
+		}
+		return x.staleBattery(m)
 	case "latest":
 		return x.latest(op)
 	case "renew", "refresh-full", "refresh-partial":
@@ -1172,11 +1298,14 @@ func runC08(c C08Case, cs *kit.CaseStats) error {
 				return fmt.Errorf("contract %v chain position %d: %w", m.ID, i, err)
 			}
 		}
-		if err := x.consensusAccepts(m); err != nil {
+		if err := x.consensusAccepts(m, false); err != nil {
 			return err
 		}
 	}
 	cs.Classf("commits=%d", min(x.commits, 8))
+	if x.refusedStale > 0 {
+		cs.Class("refused-on-non-revisable-contract")
+	}
 	if x.commits >= 2 && x.rejected >= 1 {
 		cs.NonTrivial()
 	}
@@ -1230,6 +1359,10 @@ func genC08Op(t *rapid.T, nc int, allowRace bool) C08Op {
 	case k < 30:
 		op.Op = "mine"
 		op.Len = rapid.IntRange(0, 1).Draw(t, "refetch")
+		if rapid.IntRange(0, 2).Draw(t, "past") == 0 {
+			op.Op = "minepast"
+			op.Len = rapid.SampledFrom([]int{0, 0, 0, 1}).Draw(t, "expire")
+		}
 	case k >= 32:
 		if !allowRace {
 			op.Op = "latest"
@@ -1295,6 +1428,9 @@ func genC08Op(t *rapid.T, nc int, allowRace bool) C08Op {
 	case "renew", "refresh-full", "refresh-partial":
 		op.Alw, op.Col = rapid.IntRange(0, len(amountTable)-1).Draw(t, "alw"), rapid.IntRange(0, len(amountTable)-1).Draw(t, "col")
 	}
+	if len(corruptionsFor(op.Op)) > 0 {
+		op.Old = rapid.IntRange(0, 5).Draw(t, "old") == 0
+	}
 	if cl := corruptionsFor(op.Op); len(cl) > 0 && rapid.IntRange(0, 99).Draw(t, "corrupt?") < 38 {
 		op.Corrupt = rapid.SampledFrom(cl).Draw(t, "corrupt")
 	}
@@ -1320,7 +1456,7 @@ func genC08(t *rapid.T) C08Case {
 
 var c08Prop = kit.Prop[C08Case]{
 	ID:   "C08",
-	Rule: "sequences (2..20, thorough 2..40) of fund, replenish accounts/pools, append, free, sector-roots, latest-revision, renew, refresh (full/partial), mine, 2-3-way races of honest RPCs and forced interleavings (a second RPC on the same contract issued exactly while the host waits for the second renter message of a renew, refresh, append, free or replenish) on 1-2 contracts against the real rhp4.Server, each RPC honest or with exactly one corruption (challenge: garbage / zero / other key / number -1 / +1 / replayed; renter signature: garbage / zero / other key / over another amount, root or number / replayed; replayed request; price table signed by another key / expired / altered; request for another contract; out-of-range indices, offsets, lengths; zero, missing or overflowing deposits and targets; renewal parameters out of bounds), the rest of the exchange carried on honestly. Oracle over the recorded Contractor calls: every committed revision equals core's ReviseFor*/Renew*/Refresh* applied by the harness to the previous revision and the arguments it sent, is doubly signed, monotone and value conserving; corrupted or underivable requests change nothing and trigger no mutating call; the latest revision validates under core as a revision of the on-chain element. Non-trivial = >= 2 committed revisions and >= 1 rejected corrupted/replayed request in one sequence; distinct by hash of the case.",
+	Rule: "sequences (2..20, thorough 2..40) of fund, replenish accounts/pools, append, free, sector-roots, latest-revision, renew, refresh (full/partial), mine, 2-3-way races of honest RPCs and forced interleavings (a second RPC on the same contract issued exactly while the host waits for the second renter message of a renew, refresh, append, free or replenish) on 1-2 contracts against the real rhp4.Server, every revising RPC kind re-issued against a contract after it was renewed / refreshed or after the chain was mined past its proof height (must be refused, nothing signed or persisted), each RPC honest or with exactly one corruption (challenge: garbage / zero / other key / number -1 / +1 / replayed; renter signature: garbage / zero / other key / over another amount, root or number / replayed; replayed request; price table signed by another key / expired / altered; request for another contract; out-of-range indices, offsets, lengths; zero, missing or overflowing deposits and targets; renewal parameters out of bounds; renewal funded with inputs whose signatures are invalid or that are double-spent through the pool), the rest of the exchange carried on honestly. Oracle over the recorded Contractor calls: every committed revision equals core's ReviseFor*/Renew*/Refresh* applied by the harness to the previous revision and the arguments it sent, is doubly signed, monotone and value conserving; corrupted or underivable requests change nothing and trigger no mutating call; the latest revision validates under core as a revision of the on-chain element. Non-trivial = >= 2 committed revisions and >= 1 rejected corrupted/replayed request in one sequence; distinct by hash of the case.",
 	Assumptions: []string{
 		"host = rhp4.Server over the repository's reference EphemeralContractor (which itself re-checks signatures and revision numbers) on the all-v2 test network, in-memory transport",
 		"expired price tables are produced by signing a table with a past ValidUntil with the host key (the harness holds it); no sleeping",
